@@ -42,6 +42,164 @@ static volatile sig_atomic_t g_shutdown = 0;
 static pthread_mutex_t g_client_count_mutex = PTHREAD_MUTEX_INITIALIZER;
 static int g_active_clients = 0;
 
+#ifdef NANOLANG_VERIF
+/* ------------------------------------------------------------------------
+ * H4 verification hook: session events (ndjson) and seeded schedule
+ * perturbation.  Inert unless NANOLANG_VERIF_TRACE_VMD=<file> (events; every hook
+ * has a sink variable of its own - the single-threaded VM / loader hooks must stay
+ * off inside the multi-threaded daemon) or
+ * NANOLANG_VERIF_YIELD=<seed> (yields) is set.  Every event is written while
+ * g_client_count_mutex is held, so the global counter "g" is a total order
+ * that is consistent with each session's own order "q".  With tracing off no
+ * lock is taken here (the hook must not add synchronisation that would hide a
+ * race from ThreadSanitizer).
+ * ------------------------------------------------------------------------ */
+#include <stdarg.h>
+#include <sched.h>
+static FILE *nlv_trace = NULL;
+static unsigned long nlv_g = 0;
+static unsigned nlv_next_sid = 0;
+static unsigned nlv_yield_seed = 0;
+static __thread unsigned nlv_sid = 0;
+static __thread unsigned nlv_seq = 0;
+static __thread unsigned nlv_ycount = 0;
+
+static void nlv_init(void) {
+    const char *t = getenv("NANOLANG_VERIF_TRACE_VMD");
+    const char *y = getenv("NANOLANG_VERIF_YIELD");
+    if (t && t[0]) nlv_trace = fopen(t, "a");
+    if (y && y[0]) nlv_yield_seed = (unsigned)strtoul(y, NULL, 10);
+}
+
+static void nlv_yield(void) {
+    if (!nlv_yield_seed) return;
+    unsigned n = nlv_ycount++;
+    if (n > 48 && (n & 127) != 0) return;          /* keep long outputs fast */
+    unsigned h = nlv_yield_seed ^ (nlv_sid * 2654435761u) ^ (n * 40503u);
+    h ^= h >> 15; h *= 2246822519u; h ^= h >> 13; h *= 3266489917u; h ^= h >> 16;
+    switch (h & 3) {
+    case 0: break;
+    case 1: sched_yield(); break;
+    case 2: usleep((h >> 8) % 200); break;
+    default: usleep((h >> 8) % 1500); break;
+    }
+}
+
+/* caller holds g_client_count_mutex */
+static void nlv_ev_locked(const char *ev, const char *fmt, ...) {
+    if (!nlv_trace) return;
+    fprintf(nlv_trace, "{\"g\":%lu,\"s\":%u,\"q\":%u,\"e\":\"%s\"", ++nlv_g, nlv_sid, ++nlv_seq, ev);
+    if (fmt) {
+        va_list ap;
+        va_start(ap, fmt);
+        vfprintf(nlv_trace, fmt, ap);
+        va_end(ap);
+    }
+    fputs("}\n", nlv_trace);
+    fflush(nlv_trace);
+}
+
+#define NLV_EV(ev, ...) do { if (nlv_trace) { pthread_mutex_lock(&g_client_count_mutex); \
+        nlv_ev_locked(ev, __VA_ARGS__); pthread_mutex_unlock(&g_client_count_mutex); } } while (0)
+
+static void nlv_ev_bytes(const char *ev, int fd, const void *data, uint32_t len, bool ok) {
+    if (!nlv_trace) return;
+    static const char hexd[] = "0123456789abcdef";
+    char *hex = malloc((size_t)len * 2 + 1);
+    if (!hex) return;
+    for (uint32_t i = 0; i < len; i++) {
+        hex[2 * i] = hexd[((const uint8_t *)data)[i] >> 4];
+        hex[2 * i + 1] = hexd[((const uint8_t *)data)[i] & 15];
+    }
+    hex[2 * len] = '\0';
+    NLV_EV(ev, ",\"fd\":%d,\"len\":%u,\"ok\":%d,\"hex\":\"%s\"", fd, (unsigned)len, ok ? 1 : 0, hex);
+    free(hex);
+}
+
+static uint32_t nlv_fnv(const uint8_t *p, uint32_t n) {
+    uint32_t h = 2166136261u;
+    for (uint32_t i = 0; i < n; i++) { h ^= p[i]; h *= 16777619u; }
+    return h;
+}
+
+static bool nlv_recv_header(int fd, VmdMsgHeader *hdr) {
+    nlv_yield();
+    bool ok = vmd_msg_recv_header(fd, hdr);
+    if (ok) NLV_EV("hdr", ",\"fd\":%d,\"type\":%u,\"len\":%u", fd, (unsigned)hdr->msg_type, (unsigned)hdr->payload_len);
+    else NLV_EV("hdr_fail", ",\"fd\":%d", fd);
+    return ok;
+}
+
+static bool nlv_recv_payload(int fd, void *buf, uint32_t len) {
+    nlv_yield();
+    bool ok = vmd_msg_recv_payload(fd, buf, len);
+    if (ok) NLV_EV("payload_ok", ",\"fd\":%d,\"len\":%u,\"h\":%u", fd, (unsigned)len, (unsigned)(nlv_fnv(buf, len) & 0x3fffffffu));
+    else NLV_EV("payload_fail", ",\"fd\":%d,\"len\":%u", fd, (unsigned)len);
+    return ok;
+}
+
+static NvmModule *nlv_deserialize(const uint8_t *blob, uint32_t len) {
+    nlv_yield();
+    NvmModule *m = nvm_deserialize(blob, len);
+    NLV_EV(m ? "deser_ok" : "deser_fail", NULL);
+    return m;
+}
+
+static VmResult nlv_execute(VmState *vm) {
+    nlv_yield();
+    NLV_EV("exec_begin", NULL);
+    VmResult r = vm_execute(vm);
+    NLV_EV("exec_end", ",\"result\":%d", (int)r);
+    return r;
+}
+
+static bool nlv_send_output(int fd, const char *text, uint32_t len) {
+    nlv_yield();
+    bool ok = vmd_msg_send_output(fd, text, len);
+    nlv_ev_bytes("frame_out", fd, text, len, ok);
+    return ok;
+}
+
+static bool nlv_send_error(int fd, const char *msg) {
+    nlv_yield();
+    bool ok = vmd_msg_send_error(fd, msg);
+    nlv_ev_bytes("err_sent", fd, msg, (uint32_t)strlen(msg), ok);
+    return ok;
+}
+
+static bool nlv_send_exit(int fd, int32_t code) {
+    nlv_yield();
+    bool ok = vmd_msg_send_exit(fd, code);
+    NLV_EV("exit_sent", ",\"fd\":%d,\"code\":%d,\"ok\":%d", fd, (int)code, ok ? 1 : 0);
+    return ok;
+}
+
+static bool nlv_send_simple(int fd, VmdMsgType type) {
+    nlv_yield();
+    bool ok = vmd_msg_send_simple(fd, type);
+    NLV_EV("simple_sent", ",\"fd\":%d,\"type\":%u,\"ok\":%d", fd, (unsigned)type, ok ? 1 : 0);
+    return ok;
+}
+
+static bool nlv_send(int fd, VmdMsgType type, const void *payload, uint32_t len) {
+    nlv_yield();
+    bool ok = vmd_msg_send(fd, type, payload, len);
+    nlv_ev_bytes(type == VMD_MSG_STATUS_RSP ? "status_sent" : "msg_sent", fd, payload, len, ok);
+    return ok;
+}
+
+/* from here on the server's protocol calls go through the logging wrappers */
+#define vmd_msg_recv_header(fd, hdr)        nlv_recv_header(fd, hdr)
+#define vmd_msg_recv_payload(fd, buf, len)  nlv_recv_payload(fd, buf, len)
+#define nvm_deserialize(blob, len)          nlv_deserialize(blob, len)
+#define vm_execute(vm)                      nlv_execute(vm)
+#define vmd_msg_send_output(fd, text, len)  nlv_send_output(fd, text, len)
+#define vmd_msg_send_error(fd, msg)         nlv_send_error(fd, msg)
+#define vmd_msg_send_exit(fd, code)         nlv_send_exit(fd, code)
+#define vmd_msg_send_simple(fd, type)       nlv_send_simple(fd, type)
+#define vmd_msg_send(fd, type, p, len)      nlv_send(fd, type, p, len)
+
+#endif /* NANOLANG_VERIF */
 /* ========================================================================
  * Signal handling
  * ======================================================================== */
@@ -142,16 +300,26 @@ static FILE *socket_fopen(int fd) {
 typedef struct {
     int client_fd;
     bool verbose;
+#ifdef NANOLANG_VERIF
+    unsigned nlv_sid;
+#endif
 } ClientCtx;
 
 static void *client_thread(void *arg) {
     ClientCtx *ctx = arg;
     int fd = ctx->client_fd;
     bool verbose = ctx->verbose;
+#ifdef NANOLANG_VERIF
+    nlv_sid = ctx->nlv_sid;
+    nlv_yield();
+#endif
     free(ctx);
 
     pthread_mutex_lock(&g_client_count_mutex);
     g_active_clients++;
+#ifdef NANOLANG_VERIF
+    nlv_ev_locked("enter", ",\"fd\":%d,\"active\":%d", fd, g_active_clients);
+#endif
     pthread_mutex_unlock(&g_client_count_mutex);
 
     /* Read one message from the client */
@@ -283,9 +451,16 @@ static void *client_thread(void *arg) {
     }
 
 done:
+#ifdef NANOLANG_VERIF
+    nlv_yield();
+    NLV_EV("close", ",\"fd\":%d", fd);
+#endif
     close(fd);
     pthread_mutex_lock(&g_client_count_mutex);
     g_active_clients--;
+#ifdef NANOLANG_VERIF
+    nlv_ev_locked("cleanup", ",\"active\":%d", g_active_clients);
+#endif
     pthread_mutex_unlock(&g_client_count_mutex);
     return NULL;
 }
@@ -339,6 +514,9 @@ int vmd_server_run(const VmdServerConfig *cfg) {
     }
 
     setup_signals();
+#ifdef NANOLANG_VERIF
+    nlv_init();
+#endif
 
     /* Create socket */
     int server_fd = socket(AF_UNIX, SOCK_STREAM, 0);
@@ -431,6 +609,15 @@ int vmd_server_run(const VmdServerConfig *cfg) {
         }
         ctx->client_fd = client_fd;
         ctx->verbose = cfg->verbose;
+#ifdef NANOLANG_VERIF
+        ctx->nlv_sid = ++nlv_next_sid;
+        if (nlv_trace) {
+            pthread_mutex_lock(&g_client_count_mutex);
+            fprintf(nlv_trace, "{\"g\":%lu,\"s\":%u,\"q\":0,\"e\":\"accept\",\"fd\":%d}\n", ++nlv_g, ctx->nlv_sid, client_fd);
+            fflush(nlv_trace);
+            pthread_mutex_unlock(&g_client_count_mutex);
+        }
+#endif
 
         pthread_t tid;
         if (pthread_create(&tid, NULL, client_thread, ctx) != 0) {
